@@ -11,6 +11,7 @@ import (
 	"runtime"
 	"sort"
 	"strings"
+	"time"
 	"unsafe"
 )
 
@@ -204,6 +205,8 @@ func (s Status) String() string {
 
 // Exec is one execution.
 type Exec struct {
+	wallStart    time.Time
+	WallLimitHit bool
 	race         map[unsafe.Pointer]*raceCell
 	racyObj      map[unsafe.Pointer]*Obj
 	Epoch        uint64
@@ -247,6 +250,9 @@ var BoundAll bool
 // bounding alone postpones a thread by one round per deviation; one hold lets everybody else run until they all
 // wait. HoldLagNs lets it lag behind by a bounded amount of virtual time as well.
 var HoldBack bool
+
+// ExecWallLimit bounds the wall-clock time of one execution (0: none).
+var ExecWallLimit = 45 * time.Second
 
 // HoldLagNs bounds how far a held thread may lag behind in virtual time: timers due up to this long after the
 // moment of the hold fire before it resumes. 0: time stands still for a hold. Oracles with time bounds must add
@@ -309,7 +315,7 @@ func Run(strat Strategy, maxSteps int, trace bool, root func()) *Exec {
 		r()
 	}
 	epochCounter++
-	e := &Exec{Epoch: epochCounter, strat: strat, MaxSteps: maxSteps, finished: make(chan struct{}), Trace: trace, region: true, Values: map[string]any{}}
+	e := &Exec{wallStart: time.Now(), Epoch: epochCounter, strat: strat, MaxSteps: maxSteps, finished: make(chan struct{}), Trace: trace, region: true, Values: map[string]any{}}
 	e.clk.init()
 	e.clockThread = &Thread{ID: "c", idv: []int{1 << 30}, Name: "clock", idHash: HashString("c")}
 	cur = e
@@ -626,6 +632,15 @@ func (e *Exec) schedule(t *Thread) {
 		}
 		e.Steps++
 		if e.Steps > e.MaxSteps {
+			e.end(StepLimit)
+			e.finished <- struct{}{}
+			e.park(t)
+			return
+		}
+		if (e.Steps&255 == 0 || len(e.threads) > 1000) && ExecWallLimit > 0 && time.Since(e.wallStart) > ExecWallLimit {
+			// one execution that takes this long (thousands of threads or timers) is given up: the search ends
+			// inconclusive (capped), it is neither a violation nor an engine problem
+			e.WallLimitHit = true
 			e.end(StepLimit)
 			e.finished <- struct{}{}
 			e.park(t)
